@@ -119,6 +119,9 @@ def compare(ctx, case, want, got, key_prefix, table=None):
                 ctx.unjudged("whole number >= 1e16 or date before 1900-03-01")
                 continue
             ctx.count("cells.judged")
+            if a != b and table is not None and x < len(table[y]) and isinstance(table[y][x], tuple) and table[y][x][0] == "number" and same_number(a, b):
+                ctx.count("cells.number-equally-short-spelling")
+                continue
             if a != b:
                 kind = "padding"
                 if table is not None and x < len(table[y]):
@@ -129,6 +132,20 @@ def compare(ctx, case, want, got, key_prefix, table=None):
                 else:
                     ctx.violation("%s:render:%s" % (key_prefix, kind), dict(case, at=[y, x]), "cell rendered differently from the documented text", expected=b, observed=a)
                 return
+
+
+def same_number(observed, expected):
+    """'shortest text denoting the same value' does not fix a spelling among equally short ones (1e+22 vs 1E22): accept
+    any text that denotes exactly the expected value and is not longer than Python's shortest repr."""
+    try:
+        if float(observed) != float(expected) or len(observed) > len(expected):
+            return False
+    except (TypeError, ValueError):
+        return False
+    # whole numbers must not carry a fractional suffix
+    if float(expected) == int(float(expected)) and abs(float(expected)) < 1e16:
+        return "." not in observed and "e" not in observed.lower()
+    return True
 
 
 def jsonable_table(table):
